@@ -1,5 +1,5 @@
 """C11, call protocol: correspondence of the Lean model's `call` (BpModel/GrpcCall.lean, driver line `GCALL`) with
-real calls, and the replay of the model's race witness (D45) on the real code.
+real calls, and the replay of the model's race witness (D51) on the real code.
 
 The probe service of harness/extract_stub.py (four RPCs, one per cardinality) is generated with the plugin of the
 working tree, imported, and served in-process (`grpclib.testing.ChannelFor`) by a subclass of the generated
@@ -15,7 +15,7 @@ is made through the generated `ProbeSvcStub`.  Compared (observable level): how 
 started, what it was given (its unary argument / the answers to its pulls, `n` = end of the stream), the responses
 the caller's `async for` received, and how the call ended (`ret:<n>`, `ret:none`, `grpc:<status>`, `protocol`,
 `assert`, `hang`).  The real side runs under asyncio's own schedule; the model's answer is the one of the canonical
-schedule (all schedules agree: Props/C11Sched.lean) — except the race of `_stream_stream` (D45), which is probed
+schedule (all schedules agree: Props/C11Sched.lean) — except the race of `_stream_stream` (D51), which is probed
 separately with a request iterator that waits.
 """
 import asyncio
@@ -35,10 +35,10 @@ CS = {"uu": False, "us": False, "su": True, "ss": True}
 SS = {"uu": False, "us": True, "su": False, "ss": True}
 CALL_TIMEOUT = 5.0
 logging.getLogger("grpclib.server").setLevel(logging.CRITICAL)
-# the sender task of a raced _stream_stream call is abandoned with an exception nobody retrieves (part of D45)
+# the sender task of a raced _stream_stream call is abandoned with an exception nobody retrieves (part of D51)
 logging.getLogger("asyncio").setLevel(logging.CRITICAL)
 
-D45_CLASS = "stream-stream-race:handler-returns-before-request-iterator-exhausted"
+D51_CLASS = "stream-stream-race:handler-returns-before-request-iterator-exhausted"
 
 
 class Probe:
@@ -184,7 +184,7 @@ def gen_case(rng):
     for _ in range(rng.choice([0, 1, 1, 2, 3, 5])):
         if pool:
             acts.append(rng.choice(pool))
-    # a stream-stream handler that does not read to the end races with the sender task (D45): probed separately
+    # a stream-stream handler that does not read to the end races with the sender task (D51): probed separately
     if card == "ss" and gen and not any(a in ("d", "D") for a in acts):
         acts.append("d")
     r = rng.random()
@@ -219,7 +219,7 @@ def run_case(pr, case):
 
 
 def run_extra(chk, drv):
-    """correspondence of `call` with real calls + the D45 probe"""
+    """correspondence of `call` with real calls + the D51 probe"""
     chk.extra["call_rule"] = ("scripted handlers (pull / yield / drain, return / raise, fitting and non-fitting kind) on the "
                               "generated probe service, requests 0..4, list and async-generator sources; model = driver GCALL")
     try:
@@ -240,7 +240,7 @@ def run_extra(chk, drv):
             chk.count("call:" + c["card"] + (":fit" if c["gen"] == SS[c["card"]] else ":misfit"))
             if rep is not None and strip_reply(rep) != real:
                 chk.disagree("GCALL", c, rep, real)
-        # D45: the model's race witness, under the schedule of Props/C11Sched.lean `stream_stream_race`, and on the real
+        # D51: the model's race witness, under the schedule of Props/C11Sched.lean `stream_stream_race`, and on the real
         # code with a request iterator that is still waiting when the handler returns
         if drv is not None:
             rep = drv.ask([gcall_line(RACE_CASE, RACE_SCHEDULE)])[0]
@@ -266,7 +266,7 @@ def race_fails(pr):
 def classify(failure, known):
     if failure.get("kind") == "stream-stream-race" and "result=protocol" in str(failure.get("detail")):
         for e in known:
-            if e.get("class") == D45_CLASS:
+            if e.get("class") == D51_CLASS:
                 return e["id"]
     return None
 
